@@ -97,6 +97,7 @@ def run(tier, replay):
     # programs
     n_prog = pair_programs(asm, rep, tier, rnd)
     rep.count('pair_programs', n_prog)
+    rep.count('li_programs', li_programs(asm, rep, tier, rnd))
     rep.cov['rule'] = ('all low-13-bit patterns (stride 7 in quick) x 24+ upper classes, their negations and -2^32 '
                        'spellings, 20000 random 65-bit values; each pair program is lui/auipc + consumer with '
                        '%hi/%lo of a literal / constant / label / %position / a compound expression over constants whose inner parentheses decide the value; non-trivial = distinct '
@@ -111,6 +112,42 @@ def run(tier, replay):
             rep.violation('correspondence relocate_hi/lo vs model broke on {} inputs, e.g. {}'.format(mism, first),
                           dict(correspondence='BB.relocateHi/Lo vs asm.relocate_hi/lo', case=first), no_input=True)
     return rep.finish(obligations=ob)
+
+
+def li_programs(asm, rep, tier, rnd):
+    """`li rd, v` is the %hi/%lo pair the assembler writes itself: one addi when v fits 12 bits, else lui + addi; every
+    value from -2^31 to 2^32-1 (and any value beyond, taken mod 2^32) must be accepted and rebuilt."""
+    edge = [-2 ** 31, -2 ** 31 + 1, -2 ** 31 + 0x7ff, -2 ** 31 + 0x800, 2 ** 31 - 1, 2 ** 31, 2 ** 32 - 1, 2 ** 32 - 0x800, 2 ** 32 - 0x801,
+            0x7ffff7ff, 0x7ffff800, 0x7fffffff, -2048, -2049, 2047, 2048, 0, -1, 0xfffff000, 0x800, 0xfff, 0x1000, 2 ** 32, 2 ** 32 + 0x801, -2 ** 31 - 1]
+    vals = edge + [rnd.randrange(-2 ** 31, 2 ** 32) for _ in range(100 if tier == 'quick' else 2000)]
+    reqs, keep = [], []
+    for j, v in enumerate(vals):
+        txt = str(v) if j % 3 else (hex(v) if v >= 0 else '-' + hex(-v))
+        src = 'li x{}, {}\n'.format(5 + j % 20, txt)
+        rep.evaluations += 1
+        try:
+            b = bytes(asm.assemble(src))
+        except Exception as e:
+            rep.violation('li refused: {!r}: {!r}'.format(src, e), dict(case=dict(program=src, error=repr(e))))
+            continue
+        ws = [int.from_bytes(b[i:i + 4], 'little') for i in range(0, len(b), 4)]
+        if len(b) not in (4, 8):
+            rep.violation('li emitted {} bytes: {!r}'.format(len(b), src), dict(case=dict(program=src, bytes=b.hex())))
+            continue
+        keep.append((src, v, len(reqs), len(ws)))
+        reqs += ['dec32 %d' % w for w in ws]
+    out = common.drv(reqs)
+    for src, v, at, n in keep:
+        d = [out[at + i].split() for i in range(n)]
+        rd = int(src.split()[1].rstrip(',')[1:])
+        if n == 1:
+            ok = d[0][:1] == ['i'] and int(d[0][-1]) % M32 == v % M32          # addi rd, x0, v
+        else:
+            ok = d[0][0] == 'lui' and d[1][0] == 'i' and ((int(d[0][2]) << 12) + int(d[1][-1]) - v) % M32 == 0
+        if not ok:
+            rep.violation('li does not build its value: {!r} decodes to {} (wanted {})'.format(src, ' ; '.join(out[at:at + n]), v % M32),
+                          dict(case=dict(program=src, value=v, decoded=out[at:at + n])))
+    return len(keep)
 
 
 def pair_programs(asm, rep, tier, rnd):
